@@ -166,8 +166,30 @@ def run_check(prop, tier, seed, runs=None, workers=None, wall_cap=None):
         print("  class=%s.hash-seed: %d of %d runs gave different event logs under PYTHONHASHSEED %s and %s (runs %r)"
               % (prop, len(mismatches), pairs_compared, procs.HASH_SEEDS[0], procs.HASH_SEEDS[1], mismatches[:10]), flush=True)
 
+    enum = None
+    if prop == "C12" and not runs:
+        enum = run_enum(prop, tier, seed, workers, deadline + 600, findings)
+        harness_errors += enum["errors"]
+        for payload in enum["replays"]:
+            n_viol += 1
+            path = os.path.join(REPLAY_DIR, "%s-abortenum-%s.json" % (prop, payload["scenario"]["run_seed"]))
+            os.makedirs(os.path.dirname(path), exist_ok=True)
+            with open(path, "w") as handle:
+                json.dump(payload, handle, indent=1, sort_keys=True)
+            violation_lines.append("VIOLATION property=%s replay=%s" % (prop, path))
+            print("  class=%s (exhaustive abort enumeration, k=%s of %s) replay_verified=%s\n  %s" % (
+                payload["class"], payload["scenario"]["enum"]["k"], payload["scenario"]["enum"]["which"],
+                verify_replay(prop, path), payload["violation"]["detail"]), flush=True)
+
     # -- evidence --------------------------------------------------------------------
+    wall = time.time() - t0
     coverage = meta.coverage(prop, executed, rejected, tier)
+    if enum is not None:
+        coverage["exhaustive_abort_enumeration"] = {
+            "items": enum["items"], "abort_points": enum["points"], "aborts_delivered": enum["fired"],
+            "failing_points": enum["failures"], "landing_files": enum["landing"], "samples": enum["samples"],
+            "complete": bool(enum.get("complete")),
+            "what": "for each small item, resolve_all() over a shared library and read_fragments(fragment_dict=shared) were aborted at EVERY cgsmiles line index 1..N in a pristine fork; afterwards the library snapshot and a fresh resolver over the same library were compared with the reference"}
     coverage.update({
         "runs_planned": n_runs, "runs_executed": len(executed), "runs_rejected_by_admission": len(rejected),
         "runs_per_hour": int(len(executed) / max(wall, 1e-6) * 3600),
@@ -202,6 +224,53 @@ def run_check(prop, tier, seed, runs=None, workers=None, wall_cap=None):
             print("   ", r.get("reject_reasons"))
         return 2
     return 0
+
+
+ENUM_ITEMS = {"quick": 2, "thorough": 24}
+
+
+def run_enum(prop, tier, seed, workers, deadline, findings):
+    """Exhaustive abort-point enumeration over small items (C12, DESIGN 4/C12)."""
+    from sim.core import H
+    n_items = ENUM_ITEMS[tier]
+    probes = [{"prop": prop, "mode": "enum_probe", "item_seed": H(seed, "enum-item", i)} for i in range(n_items)]
+    results, errors = procs.run_tasks(probes, n_workers=workers, deadline=deadline)
+    tasks = []
+    items = 0
+    for res in results:
+        if res is None or res.get("harness_error") or not res.get("probe") or res["probe"].get("rejected"):
+            continue
+        items += 1
+        probe = res["probe"]
+        for which in ("resolve_all", "grow"):
+            ks = list(range(1, probe[which] + 1))
+            for start in range(0, len(ks), 120):
+                tasks.append({"prop": prop, "mode": "enum_points", "item_seed": res["item_seed"], "which": which,
+                              "ks": ks[start:start + 120], "ref": probe["ref"], "known": findings})
+    out = {"items": items, "points": 0, "fired": 0, "failures": 0, "landing": {}, "replays": [], "errors": list(errors), "samples": []}
+    if not tasks:
+        return out
+    results, errors = procs.run_tasks(tasks, n_workers=workers, deadline=deadline)
+    out["errors"] += errors
+    out["complete"] = all(r is not None for r in results)
+    for res in results:
+        if res is None:
+            continue
+        if res.get("harness_error"):
+            out["errors"].append(res["harness_error"][:300])
+            continue
+        out["points"] += res["points"]
+        out["fired"] += res["fired"]
+        for where, count in res["landing"].items():
+            key = where.split(":")[0]
+            out["landing"][key] = out["landing"].get(key, 0) + count
+        if len(out["samples"]) < 2:
+            out["samples"].append({"string": res["string"], "op": res["which"], "points": res["points"]})
+        if res["failures"]:
+            out["failures"] += len(res["failures"])
+            if res.get("replay") and len(out["replays"]) < 3:
+                out["replays"].append(res["replay"])
+    return out
 
 
 def verify_replay(prop, path):
